@@ -577,13 +577,6 @@ theorem unregistered_zero_votes_block (c : Ctx) (hfc : c.flagCheck = true) (s : 
     · exact FlagInv_of_frame _ _ (fun x => rewardSteps_frame c _ x) (votesByBalance_flagInv c _ addrs _ h1)
   exact ⟨h2, fun a ha => (h2 a).2 (by omega)⟩
 
-/-- non-vacuity: the genesis-like witness state satisfies the invariant -/
-example : FlagInv ns0 := by
-  intro a
-  unfold ns0
-  simp only
-  split <;> (try split) <;> (try split) <;> (try split) <;> (try split) <;> simp
-
 /-! ### single transactions -/
 
 /-- **revote_moves_weight**: a successful vote tx by `voter` (balance-before-tx `ib`, weight
@@ -836,5 +829,12 @@ example : (octx true).votesLast = true ∧ (os0.accts 20).isCand = 1 ∧ (os0.ac
     (os0.accts 20).votes = 1000 / (octx true).p.depositRate +
       voterSum (octx true).p.voteRate (fun v => (os0.accts v).voteFor) (fun a => (os0.accts a).bal) 20 oU := by
   decide
+
+/-- non-vacuity: the genesis-like witness state satisfies the invariant -/
+example : FlagInv ns0 := by
+  intro a
+  unfold ns0
+  simp only
+  split <;> (try split) <;> (try split) <;> (try split) <;> (try split) <;> simp
 
 end LemoProofs.C11
